@@ -187,6 +187,17 @@ for fam, code, cprop, fro, fmu in FAMS:
               "two WF arenas of N=%d slots each, any pair of view locations, any injected stack of <= %d entries satisfying StackInv; one next(); stack read back; entry probes; %s; unwind %d" % (n, k, P8, n + 3),
               (fmu if mut else fro)[1:], cost=cost, stub="growmodel")
 
+# Step bounded to at most two consecutive loop bodies of next() (K <= 1 non-emitting pops, DESIGN.md §3.8): the
+# per-loop bound is enforced by unwinding *assumptions* (kani --no-unwinding-checks), i.e. calls that need more
+# bodies are outside this instance's claim; the unbounded-K instances are in the thorough tier.
+for fam, code, itname in (("covdiff", 3, "CoveringDifference<"), ("diff", 2, "Difference<")):
+    h("%s_stepk1_ro_n2" % fam, 5, "setops::run::<_, %d, false, false, %s, 255, 2, 1, 4>" % (code, "true" if fam == "diff" else "false"),
+      ["C07", "C18", "C20"] + (["C08"] if fam == "diff" else []), "thorough",
+      "two WF arenas of N=2 slots each, any pair of view locations, any injected stack of <= 1 entry satisfying StackInv; one next() restricted to calls that finish within two loop bodies (unwinding assumption on the loop of next()); stack read back; entry probes; unwind 5, next() loop 3",
+      [itname.rstrip("<") + "::next", "difference::{next_indices,next_indices_first_a,next_indices_first_b" + (",extend_lpm}" if fam == "diff" else "}")],
+      cost=300, stub="growmodel", kani_args=["--no-unwinding-checks"],
+      unwindset=[{"file": "trieview/difference.rs", "func": itname + ".*Iterator>::next", "bound": 3}])
+
 HELPERS = {"union": (0, "C05", ["next_indices", "next_indices_first_l", "next_indices_first_r"]),
            "inter": (1, "C06", ["next_indices", "next_indices_first_a", "next_indices_first_b"]),
            "diff": (2, "C07", ["next_indices", "next_indices_first_a", "next_indices_first_b"])}
@@ -308,25 +319,25 @@ H[:] = [x for x in H if not (x["name"].startswith("union_step_") and True)]
 # ------------------------------------------------------------------ quick tier: curated per property
 # (the thorough tier of a property runs every harness that lists it)
 QUICK = {
-    "C01": ["obs_get_n3", "entry_obs_n3", "insert_ret_n2", "remove_ret_n3", "rkt_ret_n3", "clear_n3", "hist2_1"],
-    "C02": ["obs_lpm_n3", "obs_lpm_n4", "obs_lpm_mut_n3", "obs_cover_n3"],
-    "C03": ["whole_iter_n3", "whole_iter_mut_n3", "whole_into_iter_n3", "step_iter_n3", "step_iter_mut_n3"],
+    "C01": ["obs_get_n4", "entry_obs_n3", "insert_ret_n2", "remove_ret_n3", "rkt_ret_n3", "clear_n3", "hist2_1"],
+    "C02": ["obs_lpm_n3", "obs_lpm_n4", "obs_lpm_mut_n4", "obs_cover_n3"],
+    "C03": ["whole_iter_n3", "whole_iter_mut_n3", "whole_into_iter_n3", "step_iter_n4", "step_iter_mut_n4"],
     "C04": ["insert_len_n2", "remove_len_n3", "rkt_len_n3", "clear_n3", "entry_top0_len_n2", "entry_handle1_len_n2", "clone_n3",
             "view_access[23]_n3", "occ_seq_plain_n2"],
-    "C05": ["union_init_(ro|mut)_n2", "union_helper0_n3", "union_whole_n1"],
-    "C06": ["inter_init_(ro|mut)_n2", "inter_step_ro_n2", "inter_helper[012]_n3"],
-    "C07": ["(diff|covdiff)_init_(ro|mut)_n2", "diff_helper[012]_n3"],
-    "C08": ["union_init_ro_n2", "diff_init_(ro|mut)_n2", "union_whole_n1"],
+    "C05": ["union_init_ro_n2", "union_init_(ro|mut)_n3", "union_helper0_n[34]", "union_whole_n1"],
+    "C06": ["inter_init_(ro|mut)_n3", "inter_step_ro_n2", "inter_helper[012]_n4"],
+    "C07": ["(diff|covdiff)_init_(ro|mut)_n3", "diff_helper[012]_n4"],
+    "C08": ["union_init_ro_n[23]", "diff_init_(ro|mut)_n3", "union_whole_n1"],
     "C09": ["obs_spm_n3", "obs_spm_n4", "obs_cover_n3", "cover_chain_n4"],
-    "C10": ["children_init[012]_n3", "step_iter_n3", "rmchildren_ret_n3", "retain_lite_n2"],
-    "C11": ["view_at_(ro|mut)_n3", "view_nav_(ro|mut)_n3", "view_find[03]_ro_n3", "view_access[02]_n3"],
-    "C12": ["view_find[0-3]_(ro|mut)_n3"],
-    "C13": ["obs_get_mut_n3", "obs_lpm_mut_n3", "whole_iter_mut_n3", "step_iter_mut_n3", "view_access[02]_n3", "inter_step_mut_n2", "(union|diff|covdiff)_init_mut_n2"],
-    "C14": ["whole_iter_mut_n3", "step_iter_mut_n3", "view_nav_mut_n3", "view_find[02]_mut_n3", "view_access0_n3", "inter_init_mut_n2", "obs_get_mut_n3"],
+    "C10": ["children_init[012]_n4", "step_iter_n4", "rmchildren_ret_n3", "retain_lite_n2"],
+    "C11": ["view_at_(ro|mut)_n4", "view_nav_(ro|mut)_n4", "view_find[03]_ro_n4", "view_access[02]_n3"],
+    "C12": ["view_find[0-3]_(ro|mut)_n4"],
+    "C13": ["obs_get_mut_n4", "obs_lpm_mut_n4", "whole_iter_mut_n3", "step_iter_mut_n4", "view_access[02]_n3", "(union|inter|diff|covdiff)_init_mut_n3"],
+    "C14": ["whole_iter_mut_n3", "step_iter_mut_n4", "view_nav_mut_n4", "view_find[02]_mut_n4", "view_access0_n3", "inter_init_mut_n3", "obs_get_mut_n4"],
     "C15": ["insert_shape_n2", "remove_shape_n[34]", "rkt_shape_n3", "clear_n3", "entry_top0_shape_n2", "retain_lite_struct_n2", "canon_unique_n4"],
     "C16": ["insert_slots_n2", "remove_slots_n[34]", "rkt_slots_n3", "rmchildren_slots_n3", "clear_n3", "entry_handle1_slots_n2"],
     "C17": ["alg_.*"],
-    "C18": ["obs_get_n3", "obs_lpm_n3", "entry_obs_n3", "insert_ret_n2", "view_at_ro_n3", "union_whole_n1", "inter_helper0_n3"],
+    "C18": ["obs_get_n4", "obs_lpm_n3", "entry_obs_n3", "insert_ret_n2", "view_at_ro_n4", "union_whole_n1", "inter_helper0_n4"],
     "C19": ["eq_map_n1", "eq_set_n1", "clone_n3"],
     "C20": ["retain_obs_n2", "alg_u8", "obs_get_n3", "entry_obs_n3", "remove_ret_n3", "occ_seq_plain_n2", "occ_seq_after_remove_.*_n2", "view_set_then_remove_n2", "entry_callback0_n2"],
     "SELFTEST": ["selftest_fail"],
@@ -346,30 +357,30 @@ for x in H:
     x["quick_for"] = [p for p in x["props"] if any(_re.fullmatch(pat, x["name"]) for pat in QUICK.get(p, []))]
 # ------------------------------------------------------------------ thorough tier = quick list + deeper instances
 THOROUGH_EXTRA = {
-    "C01": ["obs_get_mut_n3", "obs_set_n3", "rmchildren_ret_n3", "entry_top[01]_ret_n2", "entry_handle[01]_ret_n2", "retain_lite_n2", "hist2_0", "remove_shape_n3",
+    "C01": ["obs_get_n3", "obs_get_mut_n3", "obs_set_n3", "rmchildren_ret_n3", "entry_top[01]_ret_n2", "entry_handle[01]_ret_n2", "retain_lite_n2", "hist2_0", "remove_shape_n3",
             "obs_get_n4", "obs_get_mut_n4", "insert_ret_n3", "remove_ret_n4", "entry_top[2-5]_ret_n2", "entry_handle2_ret_n2", "hist2_[23]",
             "collect2", "retain_n2", "retain_lite_n3", "retain_n3"],
-    "C02": ["obs_set_n3", "obs_lpm_mut_n4", "obs_cover_n4", "cover_chain_n4", "remove_shape_n3"],
-    "C03": ["remove_shape_n3", "whole_.*_n4", "step_iter.*_n4", "whole_keys_values_clone_n2"],
+    "C02": ["obs_set_n3", "obs_lpm_mut_n3", "obs_cover_n4", "cover_chain_n4", "remove_shape_n3"],
+    "C03": ["remove_shape_n3", "whole_.*_n4", "step_iter.*_n3", "whole_keys_values_clone_n2"],
     "C04": ["rmchildren_len_n3", "entry_top1_len_n2", "entry_handle0_len_n2", "retain_lite_n2", "hist2_1", "obs_set_n3", "remove_shape_n3", "insert_len_n3", "remove_len_n4", "entry_top[2-5]_len_n2", "entry_handle2_len_n2", "view_access[01]_n3", "hist2_[023]", "rebuild2",
             "retain_n2", "collect2", "obs_get_mut_n4", "whole_iter_n3"],
-    "C05": ["union_init_(ro|mut)_n3", "union_helper0_n[24]", "union_helper[12]_n[234]", "union_step[0-4]_(ro|mut)_n2", "union_whole_n2"],
-    "C06": ["inter_step_mut_n2", "inter_(init|step)_(ro|mut)_n3", "inter_helper[012]_n[24]"],
-    "C07": ["diff_step_(ro|mut)_n2", "covdiff_step_(ro|mut)_n2", "(diff|covdiff)_(init|step)_(ro|mut)_n3", "diff_helper[012]_n[24]"],
-    "C08": ["diff_step_(ro|mut)_n2", "union_init_ro_n3", "diff_init_(ro|mut)_n3", "union_step[0-4]_ro_n2", "union_whole_n2"],
+    "C05": ["union_init_mut_n2", "union_helper0_n2", "union_helper[12]_n[234]", "union_step[0-4]_(ro|mut)_n2", "union_whole_n2"],
+    "C06": ["inter_step_mut_n2", "inter_init_(ro|mut)_n2", "inter_step_(ro|mut)_n3", "inter_helper[012]_n[23]"],
+    "C07": ["diff_step_(ro|mut)_n2", "covdiff_step_(ro|mut)_n2", "(diff|covdiff)_stepk1_ro_n2", "(diff|covdiff)_init_(ro|mut)_n2", "(diff|covdiff)_step_(ro|mut)_n3", "diff_helper[012]_n[23]"],
+    "C08": ["diff_step_(ro|mut)_n2", "diff_stepk1_ro_n2", "diff_init_(ro|mut)_n2", "union_step[0-4]_ro_n2", "union_whole_n2"],
     "C09": ["obs_cover_proj_n2", "obs_set_n3", "obs_cover_n4", "remove_shape_n3"],
-    "C10": ["rmchildren_slots_n3", "retain_n2", "remove_shape_n3", "children_n[34]", "children_mut_n[34]", "into_children_n[34]", "children_init[012]_n4", "retain_struct_n2", "retain_n3", "retain_lite_n3",
+    "C10": ["rmchildren_slots_n3", "retain_n2", "remove_shape_n3", "children_n[34]", "children_mut_n[34]", "into_children_n[34]", "children_init[012]_n3", "step_iter_n3", "retain_struct_n2", "retain_n3", "retain_lite_n3",
             "rmchildren_(len|shape)_n3", "step_iter_n4"],
-    "C11": ["remove_shape_n3", "view_at_(ro|mut)_n4", "view_nav_(ro|mut)_n4", "view_find[03]_(ro|mut)_n4", "view_find[03]_mut_n3", "view_access[13]_n3"],
-    "C12": ["remove_shape_n3", "view_find[0-3]_(ro|mut)_n4"],
-    "C13": ["view_access[13]_n3", "(union|diff|covdiff)_init_mut_n2", "remove_shape_n3", "obs_get_mut_n4", "obs_lpm_mut_n4", "whole_iter_mut_n4", "step_iter_mut_n4", "children_mut_n3", "diff_step_mut_n2", "covdiff_step_mut_n2",
+    "C11": ["remove_shape_n3", "view_at_(ro|mut)_n3", "view_nav_(ro|mut)_n3", "view_find[03]_(ro|mut)_n3", "view_find[03]_mut_n4", "view_access[13]_n3"],
+    "C12": ["remove_shape_n3", "view_find[0-3]_(ro|mut)_n3"],
+    "C13": ["view_access[13]_n3", "(union|diff|covdiff)_init_mut_n2", "inter_init_mut_n3", "remove_shape_n3", "obs_get_mut_n3", "obs_lpm_mut_n3", "whole_iter_mut_n4", "step_iter_mut_n3", "inter_step_mut_n2", "children_mut_n3", "diff_step_mut_n2", "covdiff_step_mut_n2",
             "inter_step_mut_n3", "union_step[0-4]_mut_n2", "split_interleave_n3"],
-    "C14": ["inter_step_mut_n2", "view_nav_mut_n4", "view_find[0-3]_mut_n4", "view_find[13]_mut_n3", "view_nav_ro_n3", "step_iter_mut_n4", "whole_iter_mut_n4",
+    "C14": ["inter_step_mut_n2", "inter_init_mut_n2", "view_nav_mut_n3", "view_find[0-3]_mut_n3", "view_find[13]_mut_n4", "view_nav_ro_n[34]", "step_iter_mut_n3", "obs_get_mut_n3", "whole_iter_mut_n4",
             "split_interleave_n[34]", "covdiff_step_mut_n2", "diff_step_mut_n2", "obs_lpm_mut_n3"],
     "C15": ["rmchildren_shape_n3", "entry_handle1_shape_n2", "view_access2_n3", "hist2_1", "insert_shape_n3", "entry_top1_shape_n2", "retain_struct_n2", "retain_lite_struct_n3", "retain_struct_n3", "rebuild2", "hist2_[023]"],
     "C16": ["entry_top0_slots_n2", "retain_lite_struct_n2", "insert_slots_n3", "entry_top1_slots_n2", "retain_struct_n2", "retain_lite_struct_n3", "hist2_[023]"],
     "C17": [],
-    "C18": ["obs_set_n3", "entry_top[01]_ret_n2", "entry_handle0_ret_n2", "whole_iter_n3", "view_access2_n3", "inter_step_ro_n2", "hist2_0", "remove_shape_n3", "obs_(get|lpm|spm|cover)_n4", "insert_ret_n3", "entry_top[2-5]_ret_n2", "entry_handle[12]_ret_n2", "whole_iter_n4", "view_at_(ro|mut)_n4",
+    "C18": ["obs_set_n3", "entry_top[01]_ret_n2", "entry_handle0_ret_n2", "whole_iter_n3", "view_access2_n3", "inter_step_ro_n2", "hist2_0", "remove_shape_n3", "obs_get_n3", "view_at_ro_n3", "inter_helper0_n3", "obs_(lpm|spm|cover)_n4", "insert_ret_n3", "entry_top[2-5]_ret_n2", "entry_handle[12]_ret_n2", "whole_iter_n4", "view_at_(ro|mut)_n4",
             "children_n3", "covdiff_step_ro_n2", "diff_step_ro_n2", "(union|inter|diff)_helper0_n[24]", "collect2"],
     "C19": ["remove_shape_n3", "eq_map_n[23]", "eq_set_n2", "rebuild2", "collect2"],
     "C20": [],
